@@ -19,25 +19,26 @@ def getv(fixed, nm):
     return fixed[nm] if nm in fixed else var(nm)
 
 
-def build_args(ctx, fixed):
+def build_args(ctx, fixed, u=(0, 1, 2)):
     s = [getv(fixed, 's_%d' % i) for i in range(U)]
     t = [[getv(fixed, 't_%d_%d' % (i, j)) for j in range(U)] for i in range(U)]
     s0 = [getv(fixed, 's0_%d' % i) for i in range(U)]
     lk = [getv(fixed, 'lk_%d' % i) for i in range(U)]
     lp = [getv(fixed, 'lp_%d' % i) for i in range(U)]
-    S = GSeq([(s[i], i) for i in range(U)])
-    R = GSeq([(t[i][j], (i, j)) for i in range(U) for j in range(U)])
-    S0 = GSeq([(s0[i], i) for i in range(U)] + [(True, 'zz')])           # an initial state that is never a state
+    S = GSeq([(s[i], u[i]) for i in range(U)])
+    R = GSeq([(t[i][j], (u[i], u[j])) for i in range(U) for j in range(U)])
+    S0 = GSeq([(s0[i], u[i]) for i in range(U)] + [(True, 'zz')])           # an initial state that is never a state
     L = MDict()
     for i in range(U):
         st = MSet()
         st.put('p', lp[i])
         Lc = see.Ctx(ctx.vm, ctx.fr, lk[i])
-        Lc.setitem(L, i, st)
+        Lc.setitem(L, u[i], st)
     return s, t, s0, lk, lp, S, R, S0, L
 
 
-def ctor_task(fixed):
+def ctor_task(fixed, u=(0, 1, 2)):
+    u = list(u)
     """Kripke(S,S0,R,L) with symbolic membership of S, R, S0 and symbolic keys/values of L over a 3-element universe"""
     import pyModelChecking.kripke as KR
     see.reset()
@@ -47,7 +48,7 @@ def ctor_task(fixed):
     start_lemma_log(SEED)
     vm = VM(KRIPKE_MODS, max_unroll=16, check_unroll=False)
     ctx, fr = harness_ctx(vm)
-    s, t, s0, lk, lp, S, R, S0, L = build_args(ctx, fixed)
+    s, t, s0, lk, lp, S, R, S0, L = build_args(ctx, fixed, u)
     K = ctx.call(KR.Kripke, [], {'S': S, 'S0': S0, 'R': R, 'L': L})
     raised_rt = exc_guard(fr, only=RuntimeError)
     raised_other = exc_guard(fr, but=RuntimeError)
@@ -57,14 +58,14 @@ def ctor_task(fixed):
     ok_g = ctx.g
     # the constructed object (under the guard that construction succeeded)
     nxt, labs, S0o = K.attrs['_next'], K.attrs.get('_labels'), K.attrs.get('S0')
-    isnode = [nxt.present.get(i, False) for i in range(U)]
+    isnode = [nxt.present.get(u[i], False) for i in range(U)]
     impl += [b_and(ok_g, x) for x in isnode]
-    impl += [b_and(ok_g, isnode[i], fold_b(nxt.vals[i], lambda q: q.get(j))) if i in nxt.present else False for i in range(U) for j in range(U)]
+    impl += [b_and(ok_g, isnode[i], fold_b(nxt.vals[u[i]], lambda q: q.get(u[j]))) if u[i] in nxt.present else False for i in range(U) for j in range(U)]
     if labs is not None:
-        impl += [b_and(ok_g, labs.present.get(i, False)) for i in range(U)]
-        impl += [b_and(ok_g, labs.present.get(i, False), fold_b(labs.vals[i], lambda q: q.get('p'))) if i in labs.present else False for i in range(U)]
-        bad += [b_and(ok_g, p) for k, p in labs.present.items() if k not in range(U)]
-        for i in range(U):
+        impl += [b_and(ok_g, labs.present.get(u[i], False)) for i in range(U)]
+        impl += [b_and(ok_g, labs.present.get(u[i], False), fold_b(labs.vals[u[i]], lambda q: q.get('p'))) if u[i] in labs.present else False for i in range(U)]
+        bad += [b_and(ok_g, p) for k, p in labs.present.items() if k not in u]
+        for i in u:
             if i in labs.present:
                 for (ga, q) in alts_of(labs.vals[i]):
                     bad += [b_and(ok_g, labs.present[i], ga, b) for k, b in q.bits.items() if k != 'p']
@@ -74,17 +75,18 @@ def ctor_task(fixed):
                             bad.append(b_and(ok_g, labs.present[i], ga))
     else:
         bad.append(ok_g)
-    impl += [b_and(ok_g, fold_b(S0o, lambda q: q.get(i))) for i in range(U)] if S0o is not None else [False] * U
+    impl += [b_and(ok_g, fold_b(S0o, lambda q: q.get(u[i]))) for i in range(U)] if S0o is not None else [False] * U
     if S0o is not None:
         bad += [b_and(ok_g, fold_b(S0o, lambda q: q.get('zz')))]
     # accessors on a non-state must raise RuntimeError; on a state they return the sets
-    for x in list(range(U)) + ['zz']:
+    for xi in list(range(U)) + ['zz']:
+        x = u[xi] if xi != 'zz' else 'zz'
         for meth in ('labels', 'next'):
             c2 = see.Ctx(vm, see.Frame('<acc>'), ok_g)
             r = c2.call(c2.getattr1(K, meth), [x], {})
             rt = b_or(*[g for g, e, _ in c2.fr.exc if isinstance(e, RuntimeError)])
             other = b_or(*[g for g, e, _ in c2.fr.exc if not isinstance(e, RuntimeError)])
-            nodeg = isnode[x] if x != 'zz' else False
+            nodeg = isnode[xi] if xi != 'zz' else False
             bad.append(other)
             bad.append(b_and(ok_g, b_xor(rt, b_not(nodeg))))          # raises RuntimeError <=> not a state
     # replace the labelling function by one with symbolic keys that also names a non-state; the accessor contract must survive
@@ -93,24 +95,25 @@ def ctor_task(fixed):
     for i in range(U):
         st2 = MSet()
         st2.put('r', True)
-        see.Ctx(ctx.vm, ctx.fr, rk[i]).setitem(L2, i, st2)
+        see.Ctx(ctx.vm, ctx.fr, rk[i]).setitem(L2, u[i], st2)
     zz = MSet()
     zz.put('r', True)
     ctx.setitem(L2, 'zz', zz)
     c3 = see.Ctx(vm, see.Frame('<repl>'), ok_g)
     c3.call(c3.getattr1(K, 'replace_labelling_function'), [L2], {})
     bad.append(b_or(*[g for g, e, _ in c3.fr.exc]))
-    for x in list(range(U)) + ['zz']:
+    for xi in list(range(U)) + ['zz']:
+        x = u[xi] if xi != 'zz' else 'zz'
         c4 = see.Ctx(vm, see.Frame('<acc2>'), c3.g)
         r = c4.call(c4.getattr1(K, 'labels'), [x], {})
         rt = b_or(*[g for g, e, _ in c4.fr.exc if isinstance(e, RuntimeError)])
         other = b_or(*[g for g, e, _ in c4.fr.exc if not isinstance(e, RuntimeError)])
-        nodeg = isnode[x] if x != 'zz' else False
+        nodeg = isnode[xi] if xi != 'zz' else False
         bad.append(other)
         bad.append(b_and(c3.g, b_xor(rt, b_not(nodeg))))
-        if x != 'zz':
+        if xi != 'zz':
             has_r = fold_b(r, lambda q: (q.get('r') if isinstance(q, MSet) else False)) if r is not None else False
-            bad.append(b_and(c4.g, nodeg, b_xor(has_r, rk[x])))          # labels(x) is the new label set, or empty when the key was missing
+            bad.append(b_and(c4.g, nodeg, b_xor(has_r, rk[xi])))          # labels(x) is the new label set, or empty when the key was missing
     bad.append(unwind_guard(vm))
     t1 = time.time()
     encoded = sorted(vm.encoded)
@@ -130,7 +133,7 @@ def ctor_task(fixed):
     want += [b_and(total, node[i], lk2[i], lp2[i]) for i in range(U)]
     want += [b_and(total, node[i], s02[i]) for i in range(U)]
     r = d.differ(impl, want, bad)
-    res = dict(kind='ctor', fixed=fixed, verdict=r, encode_s=round(t1 - t0, 2), exc=kinds, encoded=encoded)
+    res = dict(kind='ctor', univ=u, fixed=fixed, verdict=r, encode_s=round(t1 - t0, 2), exc=kinds, encoded=encoded)
     if r == 'sat':
         res['model'] = d.differ_model(impl, want, bad)
     res['twin'] = d.holds(raised_rt) if not is_c(raised_rt) else ('sat' if raised_rt else 'unsat')
@@ -141,9 +144,10 @@ def ctor_task(fixed):
     return res
 
 
-def copy_task(what, fixed):
+def copy_task(what, fixed, u=(0, 1, 2)):
     """clone() / get_substructure(V) of a structure with all 3 states listed, symbolic transitions, labels, S0 and V"""
     import pyModelChecking.kripke as KR
+    u = list(u)
     see.reset()
     t0 = time.time()
     names = [x for x in ['t_%d_%d' % (i, j) for i in range(U) for j in range(U)] + ['s0_%d' % i for i in range(U)] +
@@ -165,9 +169,9 @@ def copy_task(what, fixed):
     for i in range(U):
         st = MSet()
         st.put('p', lp[i])
-        ctx.setitem(L, i, st)
-    K = ctx.call(KR.Kripke, [], {'S': range(U), 'S0': GSeq([(s0[i], i) for i in range(U)]),
-                                 'R': GSeq([(t[i][j], (i, j)) for i in range(U) for j in range(U)]), 'L': L})
+        ctx.setitem(L, u[i], st)
+    K = ctx.call(KR.Kripke, [], {'S': list(u), 'S0': GSeq([(s0[i], u[i]) for i in range(U)]),
+                                 'R': GSeq([(t[i][j], (u[i], u[j])) for i in range(U) for j in range(U)]), 'L': L})
     from .mc import snapshot, mutated, heap_sets
     snap = snapshot(K)
     korig_sets = heap_sets(K)
@@ -177,7 +181,7 @@ def copy_task(what, fixed):
     else:
         V = MSet()
         for i in range(U):
-            V.put(i, v[i])
+            V.put(u[i], v[i])
         V.put('zz', v[U])                                        # V may name a non-state
         C = ctx.call(ctx.getattr1(K, 'get_substructure'), [V], {})
         keep = v[:U]
@@ -188,14 +192,14 @@ def copy_task(what, fixed):
     shared = False
     if C is not None:
         nxt, labs, S0o = C.attrs['_next'], C.attrs.get('_labels'), C.attrs.get('S0')
-        isnode = [nxt.present.get(i, False) for i in range(U)]
+        isnode = [nxt.present.get(u[i], False) for i in range(U)]
         impl += [b_and(ok_g, x) for x in isnode]
-        impl += [b_and(ok_g, isnode[i], fold_b(nxt.vals[i], lambda q: q.get(j))) if i in nxt.present else False for i in range(U) for j in range(U)]
-        bad += [b_and(ok_g, p) for k, p in nxt.present.items() if k not in range(U)]
+        impl += [b_and(ok_g, isnode[i], fold_b(nxt.vals[u[i]], lambda q: q.get(u[j]))) if u[i] in nxt.present else False for i in range(U) for j in range(U)]
+        bad += [b_and(ok_g, p) for k, p in nxt.present.items() if k not in u]
         if labs is not None:
-            impl += [b_and(ok_g, labs.present.get(i, False)) for i in range(U)]
-            impl += [b_and(ok_g, labs.present.get(i, False), fold_b(labs.vals[i], lambda q: q.get('p'))) if i in labs.present else False for i in range(U)]
-            for i in range(U):
+            impl += [b_and(ok_g, labs.present.get(u[i], False)) for i in range(U)]
+            impl += [b_and(ok_g, labs.present.get(u[i], False), fold_b(labs.vals[u[i]], lambda q: q.get('p'))) if u[i] in labs.present else False for i in range(U)]
+            for i in u:
                 if i in labs.present:
                     for (ga, q) in alts_of(labs.vals[i]):
                         bad += [b_and(ok_g, labs.present[i], ga, b) for k, b in q.bits.items() if k != 'p']
@@ -204,8 +208,8 @@ def copy_task(what, fixed):
         else:
             impl += [False] * (2 * U)
             bad.append(ok_g)
-        impl += [b_and(ok_g, fold_b(S0o, lambda q: q.get(i))) for i in range(U)] if S0o is not None else [False] * U
-        for i in range(U):
+        impl += [b_and(ok_g, fold_b(S0o, lambda q: q.get(u[i]))) for i in range(U)] if S0o is not None else [False] * U
+        for i in u:
             if i in nxt.present:
                 for (ga, q) in alts_of(nxt.vals[i]):
                     if any(q is o for o in korig_sets):
@@ -232,7 +236,7 @@ def copy_task(what, fixed):
     want += [b_and(ind_total, kp[i], lp2[i]) for i in range(U)]
     want += [b_and(ind_total, kp[i], s02[i]) for i in range(U)]
     r = d.differ(impl, want, bad)
-    res = dict(kind=what, fixed=fixed, verdict=r, encode_s=round(t1 - t0, 2), exc=kinds, encoded=encoded, shared=shared)
+    res = dict(kind=what, univ=u, fixed=fixed, verdict=r, encode_s=round(t1 - t0, 2), exc=kinds, encoded=encoded, shared=shared)
     if r == 'sat':
         res['model'] = d.differ_model(impl, want, bad)
     res['twin'] = d.holds(b_not(raised_rt), impl[1]) if what != 'clone' else d.holds(impl[1])
@@ -245,13 +249,14 @@ def copy_task(what, fixed):
 C14_REPLAY = '''
 from pyModelChecking import Kripke
 U = 3
+u = %(univ)r
 kind = %(kind)r
 m = %(m)r
 val = lambda k: bool(m.get(k, False))
-S = [i for i in range(U) if val('s_%%d' %% i)] if kind == 'ctor' else list(range(U))
-R = [(i, j) for i in range(U) for j in range(U) if val('t_%%d_%%d' %% (i, j))]
-S0 = [i for i in range(U) if val('s0_%%d' %% i)] + (['zz'] if kind == 'ctor' else [])
-L = {i: ({'p'} if val('lp_%%d' %% i) else set()) for i in range(U) if kind != 'ctor' or val('lk_%%d' %% i)}
+S = [u[i] for i in range(U) if val('s_%%d' %% i)] if kind == 'ctor' else list(u)
+R = [(u[i], u[j]) for i in range(U) for j in range(U) if val('t_%%d_%%d' %% (i, j))]
+S0 = [u[i] for i in range(U) if val('s0_%%d' %% i)] + (['zz'] if kind == 'ctor' else [])
+L = {u[i]: ({'p'} if val('lp_%%d' %% i) else set()) for i in range(U) if kind != 'ctor' or val('lk_%%d' %% i)}
 nodes = set(S) | {a for a, b in R} | {b for a, b in R}
 total = all(any(a == x for a, b in R) for x in nodes)
 bad = []
@@ -281,23 +286,23 @@ def same(C, keep, what):
 if built:
     if kind == 'ctor':
         same(K, nodes, 'constructed')
-        for x in list(range(U)) + ['zz']:
+        for x in list(u) + ['zz']:
             if x not in nodes:
-                expect_rt(lambda: K.labels(x), 'labels(%%r)' %% x); expect_rt(lambda: K.next(x), 'next(%%r)' %% x)
+                expect_rt(lambda: K.labels(x), 'labels(%%r)' %% (x,)); expect_rt(lambda: K.next(x), 'next(%%r)' %% (x,))
         for x in nodes:
-            if x in L and K.labels(x) is L[x]: bad.append('label set of %%s is the caller\\'s object' %% x)
-        L2 = {i: {'r'} for i in range(U) if val('s0_%%d' %% i)}
+            if x in L and K.labels(x) is L[x]: bad.append('label set of %%s is the caller\\'s object' %% (x,))
+        L2 = {u[i]: {'r'} for i in range(U) if val('s0_%%d' %% i)}
         L2['zz'] = {'r'}
         K.replace_labelling_function(L2)
-        for x in list(range(U)) + ['zz']:
+        for x in list(u) + ['zz']:
             if x not in nodes:
-                expect_rt(lambda: K.labels(x), 'labels(%%r) after replace_labelling_function' %% x)
-            elif K.labels(x) != ({'r'} if val('s0_%%d' %% x) else set()):
+                expect_rt(lambda: K.labels(x), 'labels(%%r) after replace_labelling_function' %% (x,))
+            elif K.labels(x) != ({'r'} if val('s0_%%d' %% u.index(x)) else set()):
                 bad.append('labels(%%r) after replace_labelling_function = %%s' %% (x, K.labels(x)))
     elif kind == 'clone':
         same(K.clone(), nodes, 'clone')
     else:
-        V = {i for i in range(U) if val('v_%%d' %% i)} | ({'zz'} if val('v_3') else set())
+        V = {u[i] for i in range(U) if val('v_%%d' %% i)} | ({'zz'} if val('v_3') else set())
         keep = V & nodes
         ind_total = all(any(a == x and b in keep for a, b in R) for x in keep)
         try:
@@ -319,6 +324,6 @@ def c14_replay(res):
     m = dict(res['model'])
     for k, v in (res.get('fixed') or {}).items():
         m[k] = v
-    path = write_replay('C14', C14_REPLAY % dict(kind=res['kind'] if res['kind'] in ('ctor', 'clone') else 'sub', m=m))
+    path = write_replay('C14', C14_REPLAY % dict(kind=res['kind'] if res['kind'] in ('ctor', 'clone') else 'sub', m=m, univ=list(res.get('univ') or [0, 1, 2])))
     ok, out = run_replay(path)
     return (path if ok else None), out
